@@ -13,7 +13,10 @@ SegChoices ==
     <<"{", "s", "=", "L", "/", "*", "}">>, <<"{", "s", "=", "L", "/", "*", "*", "}">>,
     <<"{", "s", "=", "*", "/", "L", "}">>,
     <<"{", "L", "}">>, <<"{", "n", "}">>, <<"{", "n", ".", "L", "}">>, <<"{", "s", ".", "s", "}">>,
-    <<"{", "s", "=", "{", "i", "}", "}">> }
+    <<"{", "s", "=", "{", "i", "}", "}">>,
+    \* a variable inside a variable's pattern, not in first place (refused: nesting is not part of the grammar)
+    <<"{", "s", "=", "L", "/", "{", "i", "}", "}">>, <<"{", "s", "=", "*", "/", "L", "/", "{", "s", "}", "}">>,
+    <<"{", "s", "=", "L", "/", "{", "i", "=", "*", "}", "/", "L", "}">> }
 VerbChoices == { <<>>, <<":", "L">>, <<":", "s">> }
 Tmpls == {<<"/">> \o a \o v : a \in SegChoices, v \in VerbChoices}
          \cup {<<"/">> \o a \o <<"/">> \o b \o v : a \in SegChoices, b \in SegChoices, v \in VerbChoices}
